@@ -621,6 +621,41 @@ def runtime_semantics(run, S):
     return obls
 
 
+def target_insert_run(S):
+    c = [x for x in S.prog.find(None, "Target", "insert") if "assignment.rs" in x.name]
+    if len(c) != 1:
+        raise Unencodable(f"assignment::Target::insert: {len(c)} bodies")
+    ex, paths = run_fn(S, c[0], [("self", "&assignment::Target"), ("value", "value::value::Value"), ("ctx", "&mut context::Context<'_>")],
+                       opaque_extra=[r"^context::Context::<'_>::(state_mut|target_mut)$", r"^(state::)?RuntimeState::(insert_variable|variable_mut)$",
+                                     r"^<(ast::)?Ident as Clone>::clone$", r"^OwnedValuePath::is_root$"])
+    return NodeRun("AssignTarget", ex, paths, lambda l: l), c[0]
+
+
+def target_insert_semantics(run, S):
+    """C17: a rejected write makes `insert` return normally, after exactly one target operation (nothing else is touched)"""
+    obls = []
+    ex = run.ex
+    tv = S.types.enum_variants("assignment::Target", "compiler::expression::assignment")
+    if [n for n, _ in tv] != ["Noop", "Internal", "External"]:
+        raise Unencodable(f"assignment::Target variants changed: {tv}")
+    for pi, p in enumerate(run.paths):
+        v = V(ex, p.st)
+        tg = [e for e in p.st.trace if e["kind"] == "target"]
+        is_ext = v.is_variant(Lazy("assignment::Target", "self*"), "External", "assignment::Target")
+        role = "C17:AssignTarget[External]:rejected-write-is-contained"
+        ok = p.outcome.kind == "ret" and len(tg) == 1 and tg[0]["op"] == "target_insert" and len(p.st.trace) == 1
+        obls.append(Obl(role, {"C17"}, f"{role}#path{pi}", p, z3.Implies(is_ext, z3.BoolVal(ok))))
+        if tg:
+            # the value handed to the target is the assigned value, the path is the target's path
+            same_val = v.same(tg[0]["args"][1], Lazy(VAL, "value")) if len(tg[0]["args"]) > 1 else z3.BoolVal(False)
+            role2 = "C17:AssignTarget[External]:writes-the-assigned-value"
+            obls.append(Obl(role2, {"C17", "C08"}, f"{role2}#path{pi}", p, z3.Implies(is_ext, same_val)))
+        else:
+            role3 = "C17:AssignTarget[non-External]:no-target-operation"
+            obls.append(Obl(role3, {"C17", "C15"}, f"{role3}#path{pi}", p, z3.BoolVal(len(p.st.trace) == 0)))
+    return obls
+
+
 # ----------------------------------------------------------------------------- everything together
 
 def all_obligations(S, bounds):
@@ -644,10 +679,10 @@ def all_obligations(S, bounds):
         stats[tag] = {"paths": len(run.paths), **{k: v for k, v in run.ex.stats.items() if k in ("solver_calls", "forks", "oracle_calls")}}
         for n, h in run.ex.stats["fns_entered"].items():
             fns.append((n, h))
-    for maker, sem in ((function_call_run, None), (adapter_run, None), (program_run, None), (query_run, query_semantics), (runtime_run, runtime_semantics)):
+    for maker, sem in ((function_call_run, None), (adapter_run, None), (program_run, None), (query_run, query_semantics), (runtime_run, runtime_semantics), (target_insert_run, target_insert_semantics)):
         run, f = maker(S)
         fns.append((f.name, f.text_hash))
-        if run.name != "Runtime":
+        if run.name not in ("Runtime", "AssignTarget"):
             take(run, propagate_obligations(run, run.name, lambda p: ""))
         take(run, no_bad_outcomes(run, run.name, lambda p: ""))
         if sem:
